@@ -186,9 +186,8 @@ def run_triple(case):
     try:
         d = cells_of((A | B) - C)
         exp = collections.Counter([x for x in sa if x not in sc] + [x for x in sb if x not in sc])
-        # statement: "set difference ... without duplicates" applies to single-area minuend; for a
-        # two-area minuend every area is reduced separately (overlaps of a and b stay counted per area)
-        if set(d) != (sa | sb) - sc or any(d[x] > exp[x] for x in d):
+        # statement: "set difference ... preserve exactly the expected cells without duplicates"
+        if set(d) != (sa | sb) - sc or any(v != 1 for v in d.values()):
             bad('sub', str((A | B) - C), sorted((sa | sb) - sc))
         i = cells_of((A | B) & C)
         if set(i) != (sa | sb) & sc:
@@ -240,9 +239,25 @@ def run_whole(case):
         gu = u.ranges[0]
         if (gu['n1'] or 1, int(gu['r1']) or 1, gu['n2'], int(gu['r2'])) != bb or len(u.ranges) != 1:
             bad('colon', str(u), bb)
+        # values seen through a whole-row operand (16384 position-coded values; whole columns are too large to value)
+        if w[0].isdigit():
+            import numpy as np
+            vals = np.array([[R.val(c, r) for c in range(1, MAXC + 1)] for r in range(wt[1], wt[3] + 1)], object)
+            WV = Ranges().push(w, vals)
+            BV = Ranges().push(R.name(b), np.array(R.grid_of(b), object))
+            if i:
+                for label, got in (('and-value', (WV & BV).value), ('and-value', (BV & WV).value)):
+                    if np.asarray(got).tolist() != R.grid_of(i):
+                        bad(label, np.asarray(got).tolist(), R.grid_of(i))
+            u = WV + BV
+            gv = np.asarray(u.value)
+            for (c, r) in sorted(R.cells(b)) + [(MAXC, wt[1]), (1, wt[3])]:
+                if bb[1] <= r <= bb[3] and gv[r - bb[1], c - 1] != R.val(c, r):
+                    bad('colon-value', '%s at col %d row %d' % (gv[r - bb[1], c - 1], c, r), R.val(c, r))
+                    break
     except Exception as e:
         bad('whole-exc', type(e).__name__ + ':' + str(e)[:60], 'no exception')
-    return result(5, ['whole' + (':fail' if fails else '')], fails)
+    return result(8, ['whole' + (':fail' if fails else '')], fails)
 
 
 def run_sheets(case):
